@@ -247,6 +247,18 @@ class Watcher(Step):
         return {}
 
 
+class Bystander(Step):
+    """A step in the same layer as the step director whose path sorts after it:
+    its ordinary (or empty) update is applied after the director's structural
+    one."""
+    def ports_schema(self):
+        return {'g': {'b': {'_default': 0, '_emit': True}}}
+
+    def next_update(self, timestep, states):
+        self.n = getattr(self, 'n', 0) + 1
+        return {'g': {'b': 1}} if self.n % 2 else {}
+
+
 class Observer(Process):
     """Glob port on the agents with one declared sub-variable, a plain port,
     an output port and (watch) a plain port wired into compartment agents/a."""
@@ -405,11 +417,12 @@ def run_history(ops, initial=(), parallel=False, via_composite=False):
     topology = {'director': dict(dtopo),
                 'observer': {'ag': ('agents',), 'g': ('glob',), 'out': ('outs',)},
                 'zdirector': dict(dtopo),
-                'zwatcher': {'agents': ('agents',), 'pool': ('pool',)}}
+                'zwatcher': {'agents': ('agents',), 'pool': ('pool',)},
+                'zzbystander': {'g': ('glob',)}}
     if watch:
         topology['observer']['w'] = ('agents', 'a', 'v')
-    steps = {'zdirector': sdirector, 'zwatcher': Watcher()}
-    flow = {'zdirector': [], 'zwatcher': [('zdirector',)]}
+    steps = {'zdirector': sdirector, 'zwatcher': Watcher(), 'zzbystander': Bystander()}
+    flow = {'zdirector': [], 'zwatcher': [('zdirector',)], 'zzbystander': []}
     state = {'agents': {}, 'pool': {}, 'leaves': {}}
     tree_tpl = {}
     for b, k, tpl, x0 in initial:
